@@ -42,10 +42,16 @@ def byte_level_check(self, rep, workdir):
             stage.append(CaseT("wb_" + c.id, "wigbytes", [], c.lines))
     mo = run_model(stage, os.path.join(workdir, "bytes"))
     eq = ne = na = 0
+    fileof_eq = fileof_ne = 0
     first = None
     for sc in stage:
         ml = (mo.get(sc.id) or ["BYTES na"])[0]
         il = next((l for l in self._last_impl[sc.id[3:]] if l.startswith("BYTES")), "BYTES ?")
+        fo = next((l for l in (mo.get(sc.id) or []) if l.startswith("FILEOF")), None)
+        if fo == "FILEOF eq":
+            fileof_eq += 1
+        elif fo:
+            fileof_ne += 1
         if ml == "BYTES na":
             na += 1
         elif ml == il:
@@ -53,7 +59,8 @@ def byte_level_check(self, rep, workdir):
         else:
             ne += 1
             first = first or (sc.id[3:], il, ml)
-    rep.coverage["byte_level_model_writer"] = {"files_compared": eq + ne, "byte_equal": eq, "different": ne, "model_not_applicable": na}
+    rep.coverage["byte_level_model_writer"] = {"files_compared": eq + ne, "byte_equal": eq, "different": ne, "model_not_applicable": na,
+                                               "fileOf_model_equals_these_bytes": fileof_eq, "fileOf_model_differs": fileof_ne}
     if first:
         rep.notes.append(f"(B) byte-level: model writer and real writer differ on {ne} files (first: case {first[0]}: real `{first[1]}` model `{first[2]}`); observables agree, so this is a note")
     rep.evals += eq + ne
